@@ -109,6 +109,11 @@ impl<'a> StructMessage<'a> {
             .msg_type()
             .emit_ctx_type(&custom.query_or_default());
         let fields_names: Vec<_> = variant.fields().iter().map(MsgField::name).collect();
+        let fields_bindings: Vec<_> = fields_names
+            .iter()
+            .zip(1..)
+            .map(|(field, num)| syn::Ident::new(&format!("field{}", num), field.span()))
+            .collect();
         let parameters = variant.fields().iter().map(MsgField::emit_method_field);
         let fields = variant.fields().iter().map(MsgField::emit_pub);
 
@@ -131,8 +136,10 @@ impl<'a> StructMessage<'a> {
 
                 pub fn dispatch #bracketed_unused_generics (self, contract: &#contract_type, ctx: #ctx_type) -> #ret_type #full_where
                 {
-                    let Self { #(#fields_names,)* } = self;
-                    contract.#function_name(Into::into(ctx), #(#fields_names,)*).map_err(Into::into)
+                    // Fields are bound to generated names, so a field called `contract` or `ctx`
+                    // does not shadow the parameters of this function.
+                    let Self { #(#fields_names: #fields_bindings,)* } = self;
+                    contract.#function_name(Into::into(ctx), #(#fields_bindings,)*).map_err(Into::into)
                 }
             }
         }
